@@ -438,9 +438,11 @@ func c16(p *Prog, r *Report) {
 	const R1 = "C16.argument-bytes-unchanged"
 	const R2 = "C16.append-onto-field-needs-whole-tail"
 	const R3 = "C16.receiver-writes-only-by-mutators"
+	const R4 = "C16.spare-capacity-never-read"
 	r.Rule(R1, "exported functions never write (store/copy/append in place) the memory of a byte-slice parameter that is not a documented destination", 60)
 	r.Rule(R2, "append(x, ...) with x loaded from a struct field: every store into that field stores a whole-tail view", 4)
 	r.Rule(R3, "exported methods write receiver state only via the raw cache, their own mutators, or R2-safe appends", 30)
+	r.Rule(R4, "every slice expression x[lo:hi] on a slice/string reachable from an exported function has hi proved <= len(x) (spare capacity is never read)", 20)
 
 	e := p.Effects()
 	r.Count("functions_summarised", e.Stats.Funcs)
@@ -549,6 +551,48 @@ func c16(p *Prog, r *Report) {
 		}
 	}
 	r.Count("exported_functions_checked", nFn)
+
+	// R4: spare capacity is never read: every slice expression with an explicit
+	// upper bound in exported functions (and their in-module callees) is proved
+	// hi <= len(x) by the range prover
+	var roots []*ssa.Function
+	for _, fn := range p.ModuleFuncs() {
+		if fn.Parent() == nil && fn.Object() != nil && fn.Object().Exported() && !strings.Contains(fnPkgPath(fn), "/internal/") && !strings.HasSuffix(fnPkgPath(fn), "/util") {
+			roots = append(roots, fn)
+		}
+	}
+	matched := c14MatchedFunctions(p)
+	scope := p.Reach(roots, InModule)
+	var fns []*ssa.Function
+	for f := range scope {
+		if f.Blocks != nil && InModule(f) && !matched[shortName(f)] {
+			fns = append(fns, f)
+		}
+	}
+	sort.Slice(fns, func(i, j int) bool { return fns[i].RelString(nil) < fns[j].RelString(nil) })
+	for _, fn := range fns {
+		rg := p.NewRange(fn)
+		n := 0
+		for _, o := range rg.obligations() {
+			if o.kind != "slice" {
+				continue
+			}
+			sl, ok := o.in.(*ssa.Slice)
+			if !ok || sl.High == nil {
+				continue
+			}
+			if _, isPtr := sl.X.Type().Underlying().(*types.Pointer); isPtr {
+				continue // arrays have no spare capacity
+			}
+			n++
+			key := fmt.Sprintf("%s: slice hi<=len #%d", shortName(fn), n)
+			if o.proved {
+				r.OK(R4, key, p.InstrPos(o.in), "upper bound proved <= len")
+			} else {
+				r.Fail(R4, key, p.InstrPos(o.in), "upper slice bound not proved <= len(x): bytes behind len (spare capacity) may be read: "+o.why)
+			}
+		}
+	}
 }
 
 // fieldOfAppendBase: append base is (an element of) a struct field.
